@@ -18,6 +18,8 @@ Lines:
   R<k>  qryg <coll> <fields|-> <filt> <sort>       full sorted result with tie-group numbers
   <inst> reload
   enc <value> | dec <S text> | idx <S id>     (idx: MongoDriver._id_to_db / _id_from_db)
+  mx <op as above without instance>          the engine call mongo.py builds (filter / projection / sort / limit / documents)
+  mfrom (S<key> (J <value> | Y<bytes>))…       _query_gen_wrapper on one engine document
 Replies: ok i <S> | ok n <k> | ok b T|F | ok r <n> <record>… | ok g <n> (<group> <record>)… | ok u | ok v <value> |
   err <enum> | bad-op
 -/
@@ -215,6 +217,79 @@ def resync (nm : Str) (op : Op) (r : Res) : Option Op :=
     if nm != [] && i != nm && auto then some (.insert c (dset kId (.str nm) rec)) else none
   | _, _ => none
 
+/-! rendering of what the Mongo driver model hands to the engine (`mx` command) -/
+
+def fmtE : Mongo.EVal → String
+  | .j v => "J " ++ fmtV v
+  | .oid b => "Y" ++ fmtCps b
+
+def fmtOperand : Mongo.EOperand → String
+  | .one (.j (.arr l)) => " ".intercalate (s!"M{l.length}" :: l.map (fun x => fmtE (.j x)))
+  | .one v => "1 " ++ fmtE v
+  | .many l => " ".intercalate (s!"M{l.length}" :: l.map fmtE)
+
+def fmtCond : Mongo.ECond → String
+  | .eq v => "E " ++ fmtE v
+  | .ops l => "P " ++ " , ".intercalate (l.map (fun ow => "S" ++ fmtCps ow.1 ++ " " ++ fmtOperand ow.2))
+
+def fmtFilt (f : Mongo.EFilt) : String :=
+  "F " ++ " ; ".intercalate (f.map (fun kc => "S" ++ fmtCps kc.1 ++ " " ++ fmtCond kc.2))
+
+def fmtDoc (d : Mongo.EDoc) : String :=
+  "D " ++ " ; ".intercalate (d.map (fun kv => "S" ++ fmtCps kv.1 ++ " " ++ fmtE kv.2))
+
+def fmtProj : Option (List (Str × Nat)) → String
+  | none => "R-"
+  | some p => "R " ++ " ; ".intercalate (p.map (fun kn => "S" ++ fmtCps kn.1 ++ s!" {kn.2}"))
+
+def fmtSortSpec (l : List (Str × Int)) : String :=
+  "L " ++ " ; ".intercalate (l.map (fun fd => "S" ++ fmtCps fd.1 ++ s!" {fd.2}"))
+
+/-- the engine call of one operation, as the model of mongo.py builds it -/
+def mongoCall (fx : Fix) : Op → String
+  | .insert _ rec =>
+    match Mongo.recordToDoc fx rec with
+    | some d => "ok i | " ++ fmtDoc d
+    | none => "err xlate"
+  | .update _ part filt =>
+    match Mongo.recordToDoc fx part, Mongo.filtToDb fx filt with
+    | some set, some f => "ok u | " ++ fmtFilt f ++ " | " ++ fmtDoc set
+    | _, _ => "err xlate"
+  | .replace _ id rec =>
+    match Mongo.idV fx (.str id) with
+    | some e => "ok p | " ++ fmtE e ++ " | " ++ fmtDoc (dset Mongo.kUid e (Mongo.toE rec))
+    | none => "err xlate"
+  | .remove _ filt =>
+    match Mongo.filtToDb fx filt with
+    | some f => "ok d | " ++ fmtFilt f
+    | none => "err xlate"
+  | .query _ fields filt sort limit =>
+    match Mongo.filtToDb fx filt with
+    | some f => "ok q | " ++ fmtFilt f ++ " | " ++ fmtProj (Mongo.projToDb fields) ++ " | " ++ fmtSortSpec (Mongo.sortToDb sort)
+        ++ " | " ++ (match limit with | none => "-" | some n => toString n)
+    | none => "err xlate"
+  | .reload => "ok"
+
+/-- a document as the engine returns it: `N<n> (S<key> (J <value> | Y<bytes>))…` -/
+partial def parseDoc : List String → Option Mongo.EDoc
+  | [] => some []
+  | k :: rest =>
+    match parseS k with
+    | none => none
+    | some key =>
+      match rest with
+      | "J" :: r =>
+        match parseV r with
+        | some (v, r') => (parseDoc r').map (fun t => (key, Mongo.EVal.j v) :: t)
+        | none => none
+      | w :: r =>
+        if w.startsWith "Y" then
+          match parseCps (w.drop 1).toString with
+          | some b => (parseDoc r).map (fun t => (key, Mongo.EVal.oid b) :: t)
+          | none => none
+        else none
+      | [] => none
+
 def getI {β : Type} (dflt : β) (k : String) (l : List (String × β)) : β :=
   match l.find? (fun p => p.1 == k) with | some p => p.2 | none => dflt
 
@@ -253,6 +328,14 @@ def dstep (d : DState) : List String → DState × String
     match parseV ws with
     | some (v, []) => (d, "ok v S" ++ fmtCps (encodeVal d.fx (mkFt d) v))
     | _ => (d, "bad-op")
+  | "mx" :: ws =>                      -- what the Mongo driver hands to the engine for this operation
+    match parseOp ws with
+    | some (op, _) => (d, mongoCall d.fx op)
+    | none => (d, "bad-op")
+  | "mfrom" :: ws =>                   -- _query_gen_wrapper on one engine document
+    match parseDoc ws with
+    | some doc => (d, "ok v " ++ fmtV (.obj (Mongo.recordFromDoc doc)))
+    | none => (d, "bad-op")
   | ["idx", w] =>                      -- Mongo identifier mapping: kind, bytes, and the id read back
     match parseS w with
     | some i =>
